@@ -63,7 +63,7 @@ Qed.
 
 (* do_random_quantum_jump *)
 Lemma do_jump_spec (s : ms) :
-  3 <= m_N s -> m_sweep s = 0 ->
+  2 <= m_N s -> m_sweep s = 0 ->
   match do_jump ar s with
   | Ok s' => frame0 s s' /\ cpos s' /\ m_rf s' = m_rf s /\ m_cur s' = m_cur s /\ m_tgt s' = m_tgt s /\
              m_tidx s' = m_tidx s /\
